@@ -23,7 +23,7 @@ type c15Case struct {
 
 var c15EditKinds = []string{"EP", "EC", "EL"}
 var c15Policies = []string{"adv", "sub", "eq", "back", "zero"} // sub: the mtime advances by a millisecond only (same second, usually the same length)
-var c15Other = []string{"TP", "TC", "TL", "TS", "TB", "IP", "IC", "FP", "BP", "FC", "FL", "UP", "EN", "ES"} // F*: front-matter-only edit, BP: body-only edit (mtime advances)
+var c15Other = []string{"TP", "TC", "TL", "TS", "TB", "IP", "IC", "FP", "BP", "FC", "FL", "UP", "EN", "ES", "ZP", "ZL"} // ZP / ZL: the page / the layout becomes an empty file (a legitimate template: it renders nothing); F*: front-matter-only edit, BP: body-only edit (mtime advances)
 var c15Renders = []string{"R1", "R2", "R3", "R4", "R5", "R6", "R7", "R8", "R9"} // R8 / R9: a page that is static except for a component shorthand tag (every second version of it has none), via Load().Render / Vue.Render // R7: Vue.Render of the page without any caller data // R5: Vue.RenderFragment of the page, R6: RenderString of a template that includes the component
 
 func c15Alphabet() []string {
@@ -140,6 +140,7 @@ type c15World struct {
 	version int
 	keepFV  int // writePart: front-matter / body version to keep (0 = new)
 	keepBV  int
+	empty   bool // the next write produces an empty (or white-space-only) file
 	mtime   map[string]time.Time
 	hist    map[string][]c15Version // every version ever written, oldest first
 	// floor: index of the oldest version of a file an entry may still hold. A
@@ -287,6 +288,9 @@ func (w *c15World) write(file string, valid bool, policy string) {
 		bv = w.keepBV
 	}
 	data := c15Content(file, fv, bv, valid)
+	if w.empty {
+		data = []string{"", " \n"}[w.version%2]
+	}
 	if file == c15Static && len(w.hist[file])%2 == 0 {
 		// the static page alternates between a version without any component tag (the first one) and one with the
 		// shorthand tag: an edit may be the one that introduces the page's first component tag, or removes its last
@@ -389,6 +393,10 @@ func (p *c15) Exec(ctx core.Ctx, cc any) core.Obs {
 			w.write(c15Note, true, "adv")
 		case "ES":
 			w.write(c15Static, true, "adv")
+		case "ZP", "ZL":
+			w.empty = true
+			w.write(map[string]string{"ZP": c15Page, "ZL": c15Lay}[kind], true, "adv")
+			w.empty = false
 		case "IP":
 			w.write(c15Page, false, "adv")
 		case "IC":
